@@ -97,7 +97,7 @@ def check_rmw(ctx, facts):
                         % (field, b.locals[g].get("line"), f0, s0.line, b.local_name(g0), b.locals[g0].get("line")))
         else:
             ctx.ok("C05.1", F, "%s committed from values read under the same guard" % field, b.relfile, site.line, "%d state loads in the slice" % len(loads))
-    ctx.floor("C05.1", "checkpoint-guarded cursor commits in read_next", n, 3)
+    ctx.floor("C05.1", "checkpoint-guarded cursor commits in read_next", n, 2)
 
 
 def check_hold(ctx, facts):
